@@ -12,6 +12,10 @@ func execExtraOp(ts []string) (string, bool) {
 		return execDo(ts), true
 	case "asm":
 		return execAsm(ts), true
+	case "conc":
+		return execConc(ts), true
+	case "lockfacts":
+		return execLockFacts(ts), true
 	}
 	return "", false
 }
